@@ -68,11 +68,8 @@ Section Exact.
       destruct (best_root_idx roots (dtarget d) (dpath d)) as [i|] eqn:Eb; [|exfalso; eapply Hcov; eauto].
       destruct (best_root_idx_spec _ _ _ _ Eb) as [r (Hn & _)].
       pose proof (written_is_listed w roots D None HD HM d i r Hd Eb Hn) as Hl. fold M in Hl. fold pl in Hl. fold w' in Hl.
-      rewrite Hk in Hl. unfold managed_for_plan.
-      assert (Hin : In tp (load_managed (files w') roots)).
-      { unfold load_managed. apply in_flat_map. exists r. split; [eapply nth_error_In; eauto|exact Hl]. }
-      destruct (load_managed (files w') roots) as [|x m]; [contradiction|].
-      apply in_filter_managed. split; [exact Hin|reflexivity].
+      rewrite Hk in Hl. apply load_in_managed_for_plan; [|reflexivity].
+      unfold load_managed. apply in_flat_map. exists r. split; [eapply nth_error_In; eauto|exact Hl].
   Qed.
 End Exact.
 
@@ -97,8 +94,13 @@ Lemma managed_for_plan_drift w roots flt p v :
   managed_for_plan {| files := upd (files w) p v; snaps := snaps w |} roots flt = managed_for_plan w roots flt.
 Proof.
   intros Hp. unfold managed_for_plan. simpl.
-  rewrite (load_managed_ext (upd (files w) p v) (files w) roots); [reflexivity|].
-  intros q Hq. apply upd_other. intros ->. congruence.
+  assert (Hext : forall q, is_manifest_path q = true -> upd (files w) p v q = files w q).
+  { intros q Hq. apply upd_other. intros ->. congruence. }
+  rewrite (load_managed_ext (upd (files w) p v) (files w) roots Hext).
+  assert (Ha : any_usable (upd (files w) p v) roots = any_usable (files w) roots).
+  { unfold any_usable. induction roots as [|r rs IH]; [reflexivity|]. simpl.
+    rewrite (read_manifest_ext (upd (files w) p v) (files w) r Hext), IH. reflexivity. }
+  rewrite Ha. reflexivity.
 Qed.
 
 (* ---------- histories ---------- *)
